@@ -466,6 +466,7 @@ fn mk_pub311(qos: u8, id: u16, dup: bool) -> v3_1_1::GenericPublish<u16> {
     v3_1_1::GenericPublish::<u16>::parse((qos << 1) | ((dup as u8) << 3), arc).unwrap().0
 }
 fn mk_pub5(qos: u8, id: u16, dup: bool) -> v5_0::GenericPublish<u16> {
+    // (parsing this fixed body is cheaper under CBMC than going through the builder: measured 4.5 GB vs > 8 GB)
     let body: [u8; 7] = [0, 1, b't', (id >> 8) as u8, id as u8, 0, 0x55];
     let arc: crate::mqtt::common::Arc<[u8]> = crate::mqtt::common::Arc::from(&body[..]);
     v5_0::GenericPublish::<u16>::parse((qos << 1) | ((dup as u8) << 3), arc).unwrap().0
